@@ -147,10 +147,8 @@ def opStr : BinOp → String
   | .band => "&" | .bor => "|" | .bxor => "^" | .lt => "<" | .le => "<=" | .gt => ">" | .ge => ">="
   | .eq => "==" | .ne => "!=" | .land => "&&" | .lor => "||"
 
-/-- the comparisonError findings of one comparison token -/
-def bitCmpFindings (op : BinOp) (l r : Expr) : List Finding :=
-  -- "if (expr1->hasKnownIntValue()) std::swap(expr1, expr2)": the comparator is *not* turned around
-  let (expr1, expr2) := if l.ann.known.isSome then (r, l) else (l, r)
+/-- the comparisonError findings of a comparison read as `expr1 op expr2` -/
+def bitCmpFindingsAux (op : BinOp) (expr1 expr2 : Expr) : List Finding :=
   match expr2.ann.known with
   | none => []
   | some num2 =>
@@ -169,6 +167,16 @@ def bitCmpFindings (op : BinOp) (l r : Expr) : List Finding :=
             | none => none
         else []
       | _ => []
+
+/-- the comparisonError findings of one comparison token (checkcondition.cpp:374-382, since e82cb03):
+    "if (expr1->hasKnownIntValue()) { std::swap(expr1, expr2); … turn the comparator around }" -/
+def bitCmpFindings (op : BinOp) (l r : Expr) : List Finding :=
+  if l.ann.known.isSome then bitCmpFindingsAux (flipOp op) r l else bitCmpFindingsAux op l r
+
+/-- before e82cb03 (finding F03c, fixed) the operands were swapped and the comparator kept; only used by the
+    counterexample theorem `bit_compare_prefix_counterexample` -/
+def bitCmpFindingsOld (op : BinOp) (l r : Expr) : List Finding :=
+  if l.ann.known.isSome then bitCmpFindingsAux op r l else bitCmpFindingsAux op l r
 
 /-- all comparison tokens of an expression in token order -/
 def cmpNodes : Expr → List (BinOp × Expr × Expr)
